@@ -78,6 +78,8 @@ def cases(tier, seed):
     out = [{"sub": "pair", "i": i} for i in range(n)]
     out += [{"sub": "sympy", "i": i} for i in range(8 if tier == "quick" else 200)]
     out += [{"sub": "oneterm", "i": i} for i in range(16 if tier == "quick" else 200)]
+    # shot numbers beyond the sampler's internal chunk size (10**7): samples are accumulated over several chunks
+    out = [{"sub": "bigshots", "i": i} for i in range(1 if tier == "quick" else 4)] + out
     return out
 
 
@@ -267,5 +269,35 @@ def run_oneterm(case, ctx):
         ctx.nontrivial(("oneterm", term, sorted(freqs.items())))
 
 
+def run_bigshots(case, ctx):
+    from tangelo.linq import get_backend
+    rng, pr, s = case_rng(ctx.seed, "C02", "bigshots", case["i"])
+    n = 2
+    gates = gen.random_gates(pr, n, 4, names=["RY", "RX", "CNOT", "H"], max_controls=1, hostile=0.0)
+    terms = gen.random_qubit_terms(pr, n, 3, identity=False)
+    op = gen.to_qubit_operator(terms)
+    terms = gen.terms_of(op)
+    circ = gen.to_circuit(gates, n_qubits=n)
+    psi = refsim.run(gates, n)
+    exact = dense_expectation(terms, psi, n)
+    stats = term_stats(terms, psi, n)
+    n_shots = 10 ** 7 + pr.choice([3, 1000003, 2 * 10 ** 6 + 1])
+    be = get_backend("cirq", n_shots=n_shots)
+    np.random.seed(s)
+    freqs, _ = be.simulate(circ)
+    probs = {refsim.bitstring(i, n): float(p) for i, p in enumerate(refsim.probabilities(psi))}
+    tot = sum(freqs.values())
+    dev = max(abs(freqs.get(k, 0) - probs[k]) / max(math.sqrt(probs[k] * (1 - probs[k]) / n_shots), 1e-12) for k in probs if probs[k] > 1e-12)
+    ctx.check("cirq_sampled", abs(tot - 1) < 1e-9 and dev < 7,
+              f"frequencies sampled with n_shots={n_shots} (several sampler chunks) are not normalised / not the exact distribution (sum={tot}, max deviation {dev:.1f} sigma)",
+              lambda: {"gates": gates, "n_shots": n_shots, "freqs": freqs, "exact": probs})
+    np.random.seed(s + 1)
+    got = be.get_expectation_value(op, circ)
+    sig = sigma_bound(stats, n_shots)
+    ctx.check("cirq_sampled", abs(complex(got) - exact) <= 6 * sig + 1e-9, f"expectation value with n_shots={n_shots} is {abs(complex(got) - exact) / max(sig, 1e-300):.1f} sigma off",
+              lambda: {"gates": gates, "n_shots": n_shots, "got": complex(got), "expected": exact})
+    ctx.nontrivial(("bigshots", gates, n_shots))
+
+
 def run_case(case, ctx):
-    {"pair": run_pair, "sympy": run_sympy, "oneterm": run_oneterm}[case["sub"]](case, ctx)
+    {"pair": run_pair, "sympy": run_sympy, "oneterm": run_oneterm, "bigshots": run_bigshots}[case["sub"]](case, ctx)
